@@ -125,6 +125,23 @@ def gen(rng, n, interval):
     return sched
 
 
+def crowd_traces():
+    """one subscriber stays while more than a thousand others come and go: its session ids keep counting"""
+    out = []
+    for n in (80, 1100):
+        qs = sdenv.endpoints(n)
+        sched = [{"t": 0, "j": 0, "op": "eg_create"}, {"t": 0, "j": 1, "op": "eg_sub", "ep": "e1"},
+                 {"t": 1, "j": 0, "op": "eg_notify", "evs": [1]}]
+        for i, q in enumerate(qs):
+            sched.append({"t": 2 + i, "j": 0, "op": "eg_sub", "ep": q})
+            sched.append({"t": 2 + i, "j": 2, "op": "eg_unsub", "ep": q})
+        sched.append({"t": 3 + n, "j": 0, "op": "eg_notify", "evs": [1, 2]})
+        ev = run_schedule(sched, 0, EVENTS, {1: 7, 2: 9})
+        out.append({"cfg": mon_cfg(0), "ev": monpass.add_adv(ev), "sched": sched, "interval": 0, "burn": {}, "dns": 0,
+                    "diag": {"interval": 0, "family": "%d subscribers come and go" % n}})
+    return out
+
+
 def mon_cfg(interval):
     return {"events": EVENTS, "values0": [7, 9], "interval": interval, "svc": SVC_ID, "major": MAJOR, "maxId": 65535}
 
@@ -162,7 +179,7 @@ def check(ctx):
     m1.holds("cyclic rounds", "C17_quick.cfg", {"C17_X": "C17_C", "C17_InputsX": "C17_InputsC"})
     m1.caught("SwOneShot", "C17_quick.cfg")
     traces = traces_for(ctx.seed, ctx.pick(400, 6000), ctx.pick(9, 14))
-    bad, ms = judge(ctx, "Mon_C17", traces, "eventgroup histories", payload)
+    bad, ms = judge(ctx, "Mon_C17", traces + crowd_traces(), "eventgroup histories", payload)
     from .common import spec_to_code
 
     def replay_x(sched):
@@ -193,6 +210,8 @@ def check(ctx):
 
 def replay(ctx, rep):
     p = rep["payload"]
+    qs = [i["ep"] for i in p["sched"] if str(i.get("ep", "")).startswith("q")]
+    sdenv.endpoints(1 + max([int(x[1:]) for x in qs] + [0]))
     ev = run_schedule(p["sched"], p["interval"], EVENTS, {1: 7, 2: 9}, p["burn"], p.get("dns", 0))
     head = [{"k": "in", "op": "burn", "dst": ep, "n": k, "t": 0} for ep, k in p["burn"].items() if k]
     tr = {"cfg": mon_cfg(p["interval"]), "ev": monpass.add_adv(head + ev), "sched": p["sched"], "interval": p["interval"], "burn": p["burn"], "dns": p.get("dns", 0)}
